@@ -97,6 +97,23 @@ def View.applyLenientAll (v : View) (msgs : List Out) : View :=
     | .poseBcast _ eid _ => if gone.contains eid then acc else (v.applyLenient o, gone)
     | _ => (v.applyLenient o, gone)) (v, [])).1
 
+/-- what a newcomer holds after a concurrent block: the session state as it arrived - whatever it was sent before that is
+    overwritten by it -, then every message after it, folded as above; the module states replace the actions and the
+    asset instances when they arrive -/
+def View.applyNewcomer (v : View) (msgs : List Out) : View :=
+  (msgs.foldl (fun (acc : View × List Nat) (o : Out) =>
+    let (v, gone) := acc
+    match o with
+    | .vikjaState a => ({ v with actions := a }, gone)
+    | .odalState a => ({ v with assets := a }, gone)
+    | .entityDeleteBcast _ eid => (v.applyLenient o, eid :: gone)
+    | .actionBcast _ a => if gone.contains a.eid then acc else (v.applyLenient o, gone)
+    | .assetAddBcast _ a => if gone.contains a.eid then acc else (v.applyLenient o, gone)
+    | .compAddBcast _ c | .compUpdateBcast _ c => if gone.contains c.eid then acc else (v.applyLenient o, gone)
+    | .entityAddBcast _ e => if gone.contains e.id then acc else (v.applyLenient o, gone)
+    | .poseBcast _ eid _ => if gone.contains eid then acc else (v.applyLenient o, gone)
+    | _ => (v.applyLenient o, gone)) (v, [])).1
+
 def View.applyAll (v : View) : List Out → Option View
   | [] => some v
   | m :: ms => (v.apply m).bind (·.applyAll ms)
@@ -293,11 +310,11 @@ def VState.step (m : VState) (st : IStep) : VState :=
         let mine := (tasks.find? fun (t : Nat × Option Req) => t.1 == k).bind Prod.snd
         match joinedAs inbox, handedState inbox with
         | some (uuid, pid), some (ps, es, cs) =>
-          let v0 : View := { uuid, pid, pids := ps, ents := es, comps := cs, actions := (handedActions inbox).getD [], assets := (handedAssets inbox).getD [] }
-          -- what it was sent before the join response belongs to the session it left or is covered by the state it is
-          -- handed afterwards (a change precedes its relay, the snapshot follows the response)
-          let after := (inbox.dropWhile fun (o : Out) => match o with | .joinResp .. => false | _ => true).drop 1
-          m.put { conn := k, view := v0.applyLenientAll after }
+          let v0 : View := { uuid, pid, pids := ps, ents := es, comps := cs, actions := [], assets := [] }
+          -- what it was sent before the session state is overwritten by it: the state must not be older than any of that
+          -- (it is taken and queued while nothing is being relayed in the session)
+          let after := (inbox.dropWhile fun (o : Out) => match o with | .sessionState .. => false | _ => true).drop 1
+          m.put { conn := k, view := v0.applyNewcomer after }
         | some _, none => m.drop k
         | none, _ =>
           match m.find k with
